@@ -931,6 +931,7 @@ theorem stepLive_ok {s : St} {p a g} (h : Inv base u0 s p a g) (act : Act) (hpl 
   | stale => exact stepOK_ext h (timeout_ext s s.prevSet)
   | armFail => simp [Act.plain] at hpl
   | redeploy => simp [Act.plain] at hpl
+  | cancel sr => exact stepOK_triv h
 
 theorem step_ok {s : St} {p a g} (h : Inv base u0 s p a g) (act : Act) (hpl : act.plain = true) :
     StepOK base u0 s p a g (step s act) := by
@@ -1029,6 +1030,7 @@ theorem step_timers (s : St) (act : Act) (hpl : act.plain = true) : TimersStep s
     | stale => exact timeout_timers s s.prevSet
     | armFail => simp [Act.plain] at hpl
     | redeploy => simp [Act.plain] at hpl
+    | cancel sr => exact timersStep_triv s
 
 /-! ## whole runs -/
 
@@ -1396,6 +1398,7 @@ theorem step_away (s : St) (c : List Nat) (h : NoneAt c s) (act : Act) :
       obtain ⟨q1, q2⟩ := hx.onlyH.quiet.away c
       exact ⟨by simp only [stepLive, q1]; intro x hxc; rw [hx.slots]; exact h x hxc, q2⟩
     | armFail => exact ⟨fun x hx => h x hx, trivial⟩
+    | cancel sr => exact ⟨h, trivial⟩
     | redeploy =>
       simp only [stepLive, redeploy, awayOf, awayOK, and_true]
       intro x hx
@@ -1541,7 +1544,7 @@ theorem hrun_sim : ∀ (has : List HAct) (h : HSt) (acc : List Obs),
           split
           · exact same _ rfl
           · exact same _ rfl
-        | align _ _ | tick | stale | armFail | redeploy =>
+        | align _ _ | tick | stale | armFail | redeploy | cancel _ =>
           simp only [hstep, hh]
           exact same _ rfl
     | hold sr =>
